@@ -3,5 +3,5 @@ CONSTANTS
   K = 5
   KV = 20
   KC = 3
-INVARIANTS Inv_Panics Inv_MatmulCode Inv_BlockedCode Inv_TransposeIdentity Emit
+INVARIANTS Inv_Panics Inv_MatmulCode Inv_BlockedCode Inv_TransposeIdentity Inv_Homogeneous Emit
 CHECK_DEADLOCK FALSE
